@@ -57,7 +57,9 @@ def mtrl(m):
     keys = b"".join(struct.pack("<II", c, v) for c, v in m.get("keys", []))
     samplers = b"".join(struct.pack("<IIBBBB", SAMPLER_IDS[u], fl, ti, 0, 0, 0) for u, fl, ti in m.get("samplers", []))
     data_set = body
-    pre = b"".join(struct.pack("<HH", o, 0) for o in tex_offs)
+    # texture entries: 16-bit offset into the string heap, 16 flag bits (0x8000 marks DX11 textures in game files)
+    tflags = m.get("texture_flags") or [0] * len(tex_offs)
+    pre = b"".join(struct.pack("<HH", o, f) for o, f in zip(tex_offs, tflags))
     no = iter(set_offs)
     pre += b"".join(struct.pack("<HH", next(no), i) for i in range(m.get("uv_sets", 0)))
     pre += b"".join(struct.pack("<HH", next(no), i) for i in range(m.get("color_sets", 0)))
